@@ -49,7 +49,7 @@ def expected(N, entry):
     return KNOWN_COUNTS.get((N, entry))
 
 
-def s1_jobs(tier, harness, per_path_cost=1.0):
+def s1_jobs(tier, harness, quick_n5_max_edges=None):
     """The standard S1 job list.  harness(E, ctx, aux, desc)."""
 
     def mk(name, N, entry=None, max_edges=None, skeleton=None, budget=900.0, required=True, exp=None):
@@ -77,7 +77,10 @@ def s1_jobs(tier, harness, per_path_cost=1.0):
         mk("S1-N4-all-entries", 4, None, exp=expected(4, None)),
     ]
     if tier == "quick":
-        jobs.append(mk("S1-N5-entry-b0", 5, 0, exp=expected(5, 0)))
+        if quick_n5_max_edges is None:
+            jobs.append(mk("S1-N5-entry-b0", 5, 0, exp=expected(5, 0)))
+        else:
+            jobs.append(mk(f"S1-N5-entry-b0-le{quick_n5_max_edges}-edges", 5, 0, max_edges=quick_n5_max_edges))
     else:
         jobs.append(mk("S1-N5-all-entries", 5, None, exp=expected(5, None), budget=3000.0))
         jobs.append(mk("F6-N6-entry-b0-le7-edges", 6, 0, max_edges=7, budget=600.0, required=False))
